@@ -378,6 +378,74 @@ def r3_registration(run, w):
                (H.is_private_part(w, fi)[0] and H.is_private_part(w, fi)[1] in BACKREF_OWNERS),
                fi=fi, node=hit, nontrivial=False)
 
+  _r3_rebuild(run, w, R3)
+
+
+def _r3_rebuild(run, w, R3):
+  """A method that empties a reference column's reverse index and refills it from the stored
+  values (copy_from_column on a rename) must visit every stored row: a row left out keeps its
+  reference but loses its index entry, and removing its target no longer clears the cell."""
+  sites = []
+  for fi in w.repo.all_functions():
+    if not fi.qualname.startswith("column.") or "." not in fi.qualname[7:]:
+      continue
+    clears = [c for c in calls_in(fi.node.body) if isinstance(c.func, ast.Attribute) and
+              c.func.attr == "clear" and text(c.func.value) == "self._relation"]
+    copies = [c for c in calls_in(fi.node.body) if isinstance(c.func, ast.Attribute) and
+              c.func.attr == "copy_from_column"]
+    if clears and copies:
+      sites.append((fi, clears[0]))
+  if not sites and any(fi.qualname.startswith("column.") and fi.name == "copy_from_column" and
+                       any(isinstance(y, ast.Attribute) and y.attr in ("_update_references", "_relation")
+                           for y in ast.walk(fi.node)) for fi in w.repo.all_functions()):
+    return      # the copy exists but does not clear the index first: that is C05-R5's finding
+  if not sites:
+    raise AnalysisError("column: the method that copies a reference column's values and rebuilds "
+                        "its reverse index (clears self._relation) not identified in the code as it "
+                        "is now written: cannot decide")
+  for fi, clr in sites:
+    loops = [x for x in walk_no_nested(fi.node) if isinstance(x, ast.For) and x.lineno > clr.lineno
+             and any(isinstance(y, ast.Attribute) and y.attr in ("_update_references", "add_reference")
+                     for y in ast.walk(x))]
+    if not loops:
+      others = [x for x in walk_no_nested(fi.node) if isinstance(x, (ast.For, ast.While, ast.ListComp,
+                ast.GeneratorExp, ast.SetComp, ast.DictComp))] + \
+               [c for c in calls_in(fi.node.body) if isinstance(c.func, ast.Attribute) and
+                text(c.func.value) == "self" and c.func.attr not in ("copy_from_column",)]
+      if others:
+        raise AnalysisError("%s: the loop that refills the reverse index after clear() could not "
+                            "be read: cannot decide" % fi.qualname)
+      run.ob(R3, fi.qualname, "self._relation.clear() then refill", "the reverse index is refilled "
+             "from the copied values after it is cleared", False, fi=fi, node=clr)
+      continue
+    for lp in loops:
+      it = lp.iter
+      if isinstance(it, ast.Call) and dotted(it.func) == "enumerate" and it.args:
+        start = it.args[1] if len(it.args) > 1 else next((k.value for k in it.keywords
+                                                          if k.arg == "start"), None)
+        it = it.args[0]
+      else:
+        start = None
+      verdict = None
+      if isinstance(it, ast.Subscript) and isinstance(it.slice, ast.Slice):
+        sl = it.slice
+        whole_upper = sl.upper is None or text(sl.upper) == "len(%s)" % text(it.value)
+        lower_ok = sl.lower is None or (isinstance(sl.lower, ast.Constant) and sl.lower.value in (0, 1)
+                                        and (sl.lower.value == 0 or
+                                             (start is not None and text(start) == text(sl.lower))))
+        if sl.step is not None or not lower_ok:
+          raise AnalysisError("%s: refill loop over `%s`: cannot decide" % (fi.qualname, text(lp.iter)))
+        verdict = whole_upper and text(it.value) == "self._data"
+      elif text(it) == "self._data" or (isinstance(it, ast.Attribute) and it.attr == "row_ids"):
+        verdict = True
+      if verdict is None:
+        raise AnalysisError("%s: refill loop over `%s`: cannot decide which rows it visits"
+                            % (fi.qualname, text(lp.iter)))
+      skipping = [x for x in ast.walk(lp) if isinstance(x, (ast.Break, ast.Return))]
+      run.ob(R3, fi.qualname, "for ... in %s" % short(lp.iter, 60),
+             "the refill after clear() visits every stored row (no upper bound on the storage "
+             "scanned, no early exit)", verdict and not skipping, fi=fi, node=lp)
+
 
 U = "sandbox/grist/useractions.py"
 CO = "sandbox/grist/column.py"
@@ -438,6 +506,15 @@ VARIANTS = [(a, b, c, d, "C10-R1") for (a, b, c, d) in C09_R1_VARIANTS] + [
   ("ref-index-from-raw-value", CO,
    "    new = self.safe_get(row_id)\n    self._update_references(row_id, old, new)",
    "    self._update_references(row_id, old, value)", "C10-R3"),
+  ("ref-index-rebuild-stops-early", CO,
+   "    for row_id, value in enumerate(self._data):\n      if self.type_obj.is_right_type(value):\n"
+   "        self._update_references(row_id, None, value)",
+   "    for row_id, value in enumerate(self._data[:self._table.row_ids.max()]):\n"
+   "      if self.type_obj.is_right_type(value):\n"
+   "        self._update_references(row_id, None, value)", "C10-R3"),
+  ("ref-index-cleared-not-rebuilt", CO,
+   "    for row_id, value in enumerate(self._data):\n      if self.type_obj.is_right_type(value):\n"
+   "        self._update_references(row_id, None, value)\n", "", "C10-R3"),
   ("ref-remove-tolerant", RL,
    "    self.inverse_map[target_row_id].discard(referring_row_id)",
    "    referring_rows = self.inverse_map.get(target_row_id)\n    if referring_rows:\n      referring_rows.discard(referring_row_id)",
